@@ -85,10 +85,12 @@ def A_lock_release(s, t, o):
     return z3.And(mine_lock(s, o), z3.Not(t.lk_held), F_(s, t, ('lk_held', 'lk_owner')))
 
 
-def A_create_event(s, t, o):
-    e = z3.Const('e!crt', EvS)
-    return z3.Exists([e], z3.And(z3.Not(s.crt_has[e]), t.crt_has == z3.Store(s.crt_has, e, True),
-                                 t.crt == z3.Store(s.crt, e, o), F_(s, t, ('crt_has', 'crt'))))
+def A_create_event(s, t, o, e):
+    return z3.And(z3.Not(s.crt_has[e]), t.crt_has == z3.Store(s.crt_has, e, True),
+                  t.crt == z3.Store(s.crt, e, o), F_(s, t, ('crt_has', 'crt')))
+
+
+A_create_event.witness, A_create_event.witness_sort = 'ev', EvS
 
 
 def A_install(s, t, o):
@@ -115,11 +117,13 @@ def A_return(s, t, o):
                   F_(s, t, ('st', 'live', 'succeeded', 'the_result')))
 
 
-def A_fail(s, t, o):
+def A_fail(s, t, o, e):
     """The invocation raised or was cancelled (or is abandoned): the attempt is over."""
-    e = z3.Const('e!fail', EvS)
-    return z3.Exists([e], z3.And(s.st[e] == 2, s.own[e] == o, t.st == z3.Store(s.st, e, 5),
-                                 t.live == z3.Store(s.live, e, False), F_(s, t, ('st', 'live'))))
+    return z3.And(s.st[e] == 2, s.own[e] == o, t.st == z3.Store(s.st, e, 5),
+                  t.live == z3.Store(s.live, e, False), F_(s, t, ('st', 'live')))
+
+
+A_fail.witness, A_fail.witness_sort = 'ev', EvS
 
 
 def A_store(s, t, o):
@@ -128,10 +132,11 @@ def A_store(s, t, o):
                   t.st == z3.Store(s.st, e, 4), F_(s, t, ('c_has', 'c_val', 'st')))
 
 
-def A_set_event(s, t, o):
-    e = z3.Const('e!set', EvS)
-    return z3.Exists([e], z3.And(s.crt_has[e], s.crt[e] == o, t.ev_set == z3.Store(s.ev_set, e, True),
-                                 F_(s, t, ('ev_set',))))
+def A_set_event(s, t, o, e):
+    return z3.And(s.crt_has[e], s.crt[e] == o, t.ev_set == z3.Store(s.ev_set, e, True), F_(s, t, ('ev_set',)))
+
+
+A_set_event.witness, A_set_event.witness_sort = 'ev', EvS
 
 
 def A_remove_own(s, t, o):
@@ -197,9 +202,10 @@ def mk_stable(my):
         ('lock_not_mine_stays_not_mine', 'plain', lambda s, t, me: z3.Implies(
             z3.Not(mine_lock(s, me)), z3.Not(mine_lock(t, me)))),
         ('success_needs_finaliser_while_locked', 'plain', lambda s, t, me: z3.Implies(
-            z3.And(mine_lock(s, me), q1(s)), q1(t))),
+            z3.And(mine_lock(s, me), q1(s)), z3.And(mine_lock(t, me), q1(t)))),
         ('no_success_over_dead_marker_while_locked', 'plain', lambda s, t, me: z3.Implies(
-            z3.And(mine_lock(s, me), marker_dead_or_absent(s), z3.Not(s.succeeded)), z3.Not(t.succeeded))),
+            z3.And(mine_lock(s, me), marker_dead_or_absent(s), z3.Not(s.succeeded)),
+            z3.And(mine_lock(t, me), marker_dead_or_absent(t), z3.Not(t.succeeded)))),
         ('dead_attempt_is_permanent', 'ev', lambda s, t, me, e: z3.Implies(dead(s, e), dead(t, e))),
         ('closed_is_permanent', 'loop', lambda s, t, me, l: z3.Implies(s.closed[l], t.closed[l])),
         ('cache_retains', 'plain', lambda s, t, me: z3.And(
@@ -208,16 +214,15 @@ def mk_stable(my):
         # nobody else touches an attempt I own while it is mid-step or live; while it is, the marker
         # stays mine and nobody else succeeds
         ('my_attempt_is_mine', 'ev', lambda s, t, me, e: z3.Implies(
-            s.own[e] == me,
-            z3.And(t.own[e] == me, t.alp[e] == s.alp[e],
+            z3.And(s.crt_has[e], s.crt[e] == me, s.st[e] >= 1),
+            z3.And(t.own[e] == s.own[e], t.alp[e] == s.alp[e], t.st[e] >= 1, t.crt_has[e], t.crt[e] == me,
                    z3.Implies(midstep(s, e), z3.And(t.st[e] == s.st[e], t.m_has, t.m_ev == e,
                                                     t.succeeded == s.succeeded,
                                                     z3.Implies(s.succeeded, t.the_result == s.the_result))),
                    z3.Implies(s.st[e] == 2, z3.And(t.st[e] == 2, z3.Implies(t.live[e], s.live[e]),
                                                    z3.Implies(z3.And(s.live[e], t.live[e], z3.Not(s.succeeded)),
                                                               z3.Not(t.succeeded)))),
-                   z3.Implies(s.st[e] == 5, t.st[e] == 5),
-                   z3.Implies(s.st[e] == 0, t.st[e] == 0)))),
+                   z3.Implies(s.st[e] == 5, t.st[e] == 5)))),
         ('events_only_get_set', 'ev', lambda s, t, me, e: z3.Implies(s.ev_set[e], t.ev_set[e])),
         ('my_unpublished_events_are_untouched', 'ev', lambda s, t, me, e: z3.Implies(
             z3.And(s.crt_has[e], s.crt[e] == me),
@@ -227,11 +232,14 @@ def mk_stable(my):
             z3.Not(z3.And(s.crt_has[e], s.crt[e] == me)), z3.Not(z3.And(t.crt_has[e], t.crt[e] == me)))),
         ('cancel_requests_persist', 'plain', lambda s, t, me: z3.Implies(s.cancel_req[me], t.cancel_req[me])),
         ('caller_loop_fixed', 'plain', lambda s, t, me: t.lp == s.lp),
-        # a loop does not stop in the middle of a task step; whenever I execute, my loop is running
-        ('my_loop_runs_while_i_execute', 'plain', lambda s, t, me: z3.And(
-            t.running[t.lp[me]], z3.Not(t.closed[t.lp[me]]))),
     ]
     return thread, []
+
+
+def point_facts(t, me):
+    """True whenever the agent executes: code of a task runs only while its loop is running (a loop does
+    not stop in the middle of a task step).  An axiom about execution, not a rely clause."""
+    return z3.And(t.running[t.lp[me]], z3.Not(t.closed[t.lp[me]]))
 
 
 # others' actions never act on behalf of `me`: an action of agent o changes own[]/st[] only of its own
@@ -428,6 +436,7 @@ def install_wrapper_stubs(E, ctx, R, my, opts):
                 def fn(E_, a, k):
                     access('event.set()')
                     s = R.cur()
+                    st.setdefault('set_events', []).append(ev)
                     R.set(ev_set=z3.Store(s.ev_set, ev, True))
                     return NONE
                 return VStub('Event.set', fn)
@@ -491,6 +500,7 @@ def install_wrapper_stubs(E, ctx, R, my, opts):
         e = E.fresh('ev', EvS)
         s = R.cur()
         E.assume(z3.Not(s.crt_has[e]))          # freshness of the identity
+        R.instantiate_inv(dict(ev=[e]))
         R.set(crt_has=z3.Store(s.crt_has, e, True), crt=z3.Store(s.crt, e, me))
         st.setdefault('fresh_events', []).append(e)
         return Obj('AEvent', dict(ident=e))
@@ -515,9 +525,7 @@ def install_wrapper_stubs(E, ctx, R, my, opts):
                         s.st[e] == 1 if e is not None else z3.BoolVal(False)), props={'C01'})
         if e is None:
             raise PathEnd()
-        no_other = z3.Const('e!nol', EvS)
-        E.oblige('%s/invoke.no_other_invocation_live_on_a_running_loop' % Q,
-                 z3.ForAll([no_other], z3.Not(s.live[no_other])), props={'C01'})
+        # "no other invocation is live": lemma over inv from exactly this premise (side conditions)
         R.set(st=z3.Store(s.st, e, 2), live=z3.Store(s.live, e, True))
         st['invoked'] = True
         # the invocation runs: suspends any number of times
@@ -610,9 +618,10 @@ def install_wrapper_stubs(E, ctx, R, my, opts):
         """C05: what a waiter blocks on."""
         aw = w.fields['aw']
         ok = isinstance(aw, Obj) and aw.cls == 'Awaitable' and aw.fields['kind'] == 'wait_for'
-        E.oblige('%s/wait.bounded_by_wait_for' % Q, z3.BoolVal(ok), props={'C05'})
         if not ok:
-            raise PathEnd()
+            # a different way of waiting may be just as good: not judged here (bounded stand-in decides)
+            raise Unsupported('the waiter task does not run wait_for(...): wiring not recognised', node)
+        E.oblige('%s/wait.bounded_by_wait_for' % Q, z3.BoolVal(ok), props={'C05'})
         to = aw.fields['timeout']
         st['timeout'] = to
         E.oblige('%s/wait.safety_timeout_at_most_60s' % Q, z3.And(stubs._real(to) > 0, stubs._real(to) <= 60),
@@ -630,18 +639,21 @@ def install_wrapper_stubs(E, ctx, R, my, opts):
         elif isinstance(inner, Obj) and inner.cls == 'Awaitable' and inner.fields['kind'] == 'wrapped':
             cf = inner.fields['inner']
             ok2 = isinstance(cf, Obj) and cf.cls == 'ConcFuture'
+            if not ok2:
+                raise Unsupported('wrap_future of something else than run_coroutine_threadsafe(...)', node)
             E.oblige('%s/wait.cross_loop_wait_is_a_thread_safe_bridge' % Q, z3.BoolVal(ok2), props={'C05'})
             if ok2:
                 coro, lp_ = cf.fields['coro'], cf.fields['loop']
                 okc = isinstance(coro, Obj) and coro.cls == 'Awaitable' and coro.fields['kind'] == 'event_wait'
+                if not okc:
+                    raise Unsupported('the proxy coroutine is not event.wait(): wiring not recognised', node)
                 E.oblige('%s/wait.proxy_waits_on_the_markers_event' % Q,
                          z3.And(z3.BoolVal(okc and mr is not None),
                                 coro.fields['ev'] == mr[1] if (okc and mr) else z3.BoolVal(False)), props={'C05'})
                 E.oblige('%s/wait.proxy_runs_on_the_markers_loop' % Q,
                          lp_.t == mr[0] if mr else z3.BoolVal(False), props={'C05'})
         else:
-            E.oblige('%s/wait.waits_on_the_markers_event' % Q, z3.BoolVal(False), props={'C05'},
-                     detail='the waiter blocks on %r' % (inner,))
+            raise Unsupported('the waiter blocks on %r: wiring not recognised' % (inner,), node)
 
     # `is` on loops / events already handled by identity of VVal / ident objects
     def mk_kwargs(E_, kwargs):
@@ -729,6 +741,9 @@ def t_wrapper(E):
             return dict(ev=_uniq(evs), loop=_uniq(lps))
         R = rg.RG(E, DECL, inv, MY_ACTIONS, thread, task, me=me, qual=Q, props={'C01', 'C05', 'C06'},
                   inv_parts=INV_PARTS, sorts=SORTS, terms=terms)
+        R.point_facts = point_facts
+        R.hints = lambda: dict(ev=_uniq(([my['ev']] if my.get('ev') is not None else []) +
+                                        opts.get('fresh_events', []) + opts.get('set_events', [])))
         R.init_state()
         s0 = R.cur()
         # I am a task running on my loop: it is running, not closed; I hold nothing; I own no attempt yet
@@ -761,16 +776,19 @@ def t_wrapper(E):
                      props={'C01', 'C06', 'C14'})
         else:
             origin = exc.info.get('origin')
-            isc = E.exc_isinstance(exc, EXC['CancelledError'])
-            if isc is True or (not isinstance(isc, bool) and E.branch(isc)):
-                E.oblige(Q + '/signals.CancelledError_only_when_the_callers_own_task_was_cancelled',
-                         s.cancel_req[me], props={'C06'}, detail='origin: %s' % origin)
-            else:
-                E.oblige(Q + '/signals.exception_only_from_the_callers_own_invocation',
-                         z3.BoolVal(origin == 'own-invocation'), props={'C06'}, detail='origin: %s' % origin)
+            if origin == 'own-invocation':
+                # raised by the invocation this very call performed: allowed whatever its class
+                E.oblige(Q + '/signals.exception_only_from_the_callers_own_invocation', z3.BoolVal(True), props={'C06'})
                 E.oblige(Q + '/ensures.failed_computation_caches_nothing',
-                         z3.Implies(z3.BoolVal(my.get('ev') is not None),
-                                    z3.Not(z3.And(s.c_has, z3.Not(s.succeeded)))), props={'C06'})
+                         z3.Implies(s.c_has, s.succeeded), props={'C06'})
+            else:
+                isc = E.exc_isinstance(exc, EXC['CancelledError'])
+                if isc is True or (not isinstance(isc, bool) and E.branch(isc)):
+                    E.oblige(Q + '/signals.CancelledError_only_when_the_callers_own_task_was_cancelled',
+                             s.cancel_req[me], props={'C06'}, detail='origin: %s' % origin)
+                else:
+                    E.oblige(Q + '/signals.exception_only_from_the_callers_own_invocation',
+                             z3.BoolVal(False), props={'C06'}, detail='origin: %s' % origin)
         # ---- C05: no marker outlives its computation; waiters are woken
         if my.get('ev') is not None:
             e_ = my['ev']
@@ -846,6 +864,9 @@ def t_side(E):
         e1, e2 = z3.Consts('e1 e2', EvS)
         E.oblige('C01/lemma.single_flight_never_two_live_invocations',
                  z3.Implies(z3.And(inv(s), s.live[e1], s.live[e2]), e1 == e2), props={'C01'})
+        ex = z3.Const('ex', EvS)
+        E.oblige('C01/lemma.no_invocation_is_live_when_one_is_about_to_start',
+                 z3.Implies(z3.And(inv(s), s.m_has, s.m_ev == e1, s.st[e1] == 1), z3.Not(s.live[ex])), props={'C01'})
         E.oblige('C01/lemma.after_success_result_is_cached_or_being_finalised',
                  z3.Implies(z3.And(inv(s), s.succeeded),
                             z3.Or(z3.And(s.c_has, s.c_val == s.the_result), z3.And(s.m_has, s.st[s.m_ev] == 3))),
@@ -957,9 +978,8 @@ def _unsupp(m):
     raise Unsupported(m)
 
 
-import os as _os
-TASKS = {'cache.keys': (t_keys, {'C14'})}
-if _os.environ.get('PYVC_EXPERIMENTAL'):
-    # rely/guarantee proof of _wrapper: under development (solver time), not yet part of the checks
-    TASKS['cache._wrapper'] = (t_wrapper, {'C01', 'C05', 'C06', 'C14'})
-    TASKS['cache.side_conditions'] = (t_side, {'C01', 'C05', 'C06'})
+TASKS = {
+    'cache._wrapper': (t_wrapper, {'C01', 'C05', 'C06', 'C14'}),
+    'cache.side_conditions': (t_side, {'C01', 'C05', 'C06'}),
+    'cache.keys': (t_keys, {'C14'}),
+}
